@@ -32,6 +32,18 @@ Theorem C18_shift_ops_explicit : forall n i s t,
 Proof. intros n i s t. split; [apply shift_ops_length|apply shift_ops_nth]. Qed.
 Print Assumptions C18_shift_ops_explicit.
 
+(* the dispatcher runs [step_go], which tries the first doubling before turning the shift amount into a
+   loop counter (so that amounts like 2^63 with a missing operand are executable); it is the same
+   function, and C18_step_reject / C18_step_accept hold for every amount s >= 1 without bound *)
+Theorem C18_step_go_eq : forall p c, step_go p c = step p c.
+Proof. exact step_go_eq. Qed.
+Print Assumptions C18_step_go_eq.
+
+Example C18_ex_reject_huge :
+  step_go [(0, 0)]%nat (CShift 2 (2 ^ 63)) = ([(0, 0)]%nat, Err ($"bounds")) /\
+  step_go [(0, 0)]%nat (CShift (-1) (2 ^ 64 - 1)) = ([(0, 0)]%nat, Err ($"bounds")).
+Proof. vm_compute. split; reflexivity. Qed.
+
 (* outside the property's wording, stated as the code behaves: a shift by zero checks nothing and
    returns its operand, whatever it is *)
 Theorem C18_shift_zero_unchecked : forall p i, step p (CShift i 0) = (p, Ok i).
